@@ -376,9 +376,20 @@ func runC08(c *worker.Ctx) {
 			return b
 		}
 		if !faulty {
+			if c.T.Bool(1, 2) {
+				n := int64(len(b.Body))
+				b.Announce = &n // an honest Content-Length
+			}
 			return b
 		}
-		switch c.T.Draw(14) {
+		switch c.T.Draw(16) {
+		case 13:
+			// the origin announces a length and sends less (it dies, or it lies)
+			n := []int64{1 << 62, 1<<63 - 1, 1 << 40, 1 << 20, 3}[c.T.Draw(5)] // beyond any allocation, or small: never in between, so that the outcome does not depend on the memory left
+			b.Kind, b.Announce = "length-announced-not-sent", &n
+		case 14:
+			n := int64(c.T.Draw(2)) // announces 0 or 1 byte, has more
+			b.Kind, b.Announce = "length-announced-short", &n
 		case 0:
 			b.Kind, b.Err = "connect-error", simnet.ErrConnRefused
 		case 1:
